@@ -90,6 +90,72 @@ def priority_scenario(ctx, res, rng, idx):
     return case
 
 
+def idle_pool_scenario(ctx, res, rng, idx):
+    """
+    The loop only re-tests its wait pool after a release.  A release which
+    comes while NOBODY waits (everybody who waited was canceled) must still
+    count: a task which arrives later and has to wait for something else than
+    cores (its named environment) starts as soon as that is there.
+    """
+    C   = rng.choice([1, 2, 4])
+    lay = {'nodes': 1, 'cores_per_node': C, 'gpus_per_node': 0, 'lfs': 0,
+           'mem': 0, 'blocked_cores': [], 'blocked_gpus': [],
+           'agent_nodes': 0}
+
+    def t(uid, cores, env=''):
+        return {'uid': uid, 'ranks': 1, 'cores_per_rank': cores,
+                'gpus_per_rank': 0., 'lfs_per_rank': 0, 'mem_per_rank': 0,
+                'ranks_per_node': None, 'priority': 0, 'tags': {},
+                'named_env': env, 'app_slots': False}
+
+    n_wait = rng.randint(1, 3)
+    case = {'layout': lay, 'scheduler': 'CONTINUOUS', 'scattered': True,
+            'random_bulk': False, 'seed': rng.randint(0, 2 ** 30),
+            'tasks': [t('blk', C)] +
+                     [t('w%d' % i, rng.randint(1, C)) for i in range(n_wait)] +
+                     [t('N', rng.randint(1, C), 'env1')],
+            'n_wait': n_wait, 'gaps': [rng.randint(1, 3) for _ in range(6)],
+            'kind': 'idle-pool'}
+    wd = os.path.join(ctx.workdir or os.getcwd(), 'idlepool')
+    os.makedirs(wd, exist_ok=True)
+    sim = None
+    try:
+        sim = Sim(wd, case, observers=[])
+        g = case['gaps']
+        sim.arrive(['blk']); sim.intake(); sim.iteration(2)
+        if 'blk' not in sim.held:
+            res.inconc('idle pool scenario: blocker not started')
+            return case
+        waits = ['w%d' % i for i in range(n_wait)]
+        for u in waits:                      # one by one: separate passes
+            sim.arrive([u]); sim.intake(); sim.iteration(g[0])
+        sim.iteration(g[1])
+        sim.cancel(waits); sim.pump(); sim.iteration(g[2])
+        sim.complete('blk'); sim.pump(); sim.iteration(g[3])
+        sim.arrive(['N']); sim.intake(); sim.iteration(g[4])
+        if 'N' in sim.granted:
+            res.violation('task-started-without-its-environment', 'N', {
+                          'case': case, 'trace': sim.trace})
+            return case
+        sim.control('register_named_env', {'env_name': 'env1'})
+        sim.pump(); sim.iteration(Progress.K + g[5])
+        res.count('idle_pool_scenarios')
+        if 'N' not in sim.granted:
+            res.violation('idle-pilot-starts-nothing', 'the pilot is idle, the '
+                          'environment of N is registered, N fits - and still '
+                          'waits (%s)' % sim.waiting(),
+                          {'case': case, 'trace': sim.trace})
+    except TimeoutError as e:
+        res.inconc('idle pool scenario: %r' % e)
+    except RuntimeError as e:
+        res.violation('history-stuck', repr(e), {'case': case})
+    finally:
+        if sim:
+            sim.close()
+        os.chdir(ctx.workdir or '/')
+    return case
+
+
 def run_priority(ctx, res, case):
 
     wd = os.path.join(ctx.workdir or os.getcwd(), 'prio')
@@ -510,6 +576,12 @@ def run(ctx):
         case = priority_scenario(ctx, res, rng, i)
         res.evaluations += 1
         res.digests.add(digest(case))
+        if len(res.violations) > 40:
+            break
+    rng = ctx.rng('idlepool')
+    for i in range(ctx.n(320, 6400)):
+        case = idle_pool_scenario(ctx, res, rng, i)
+        res.evaluations += 1
         if len(res.violations) > 40:
             break
     # last: leave threads of the scheduler pair behind
